@@ -185,6 +185,7 @@ class Prov:
         self.b = body
         self.defs = defaultdict(list)  # local -> [(kind, bb, idx, obj)]
         self.memo = {}
+        self._cuts = 0
         refs = {}  # local -> place it is a `&mut`/raw pointer to (if unique)
         for bi, bl in enumerate(body.blocks):
             for si, s in enumerate(bl["stmts"]):
@@ -231,7 +232,13 @@ class Prov:
             if "fnptr" in c:
                 return {Src("fnitem", norm(c["fnptr"]))}
             if c.get("uneval"):
-                return {Src("const", c["d"], c["ty"], (norm(c["uneval"]), c.get("promoted", -1)))}
+                pr = c.get("promoted", -1)
+                if pr is not None and pr >= 0:
+                    # promoted constant: continue into its body (value of its return place)
+                    pb = self.b.prog.bodies.get((self.b.crate, norm(c["uneval"]), pr))
+                    if pb is not None and pb is not self.b:
+                        return pb.prov.local_src(0, path) or {Src("const", c["d"], c["ty"], (norm(c["uneval"]), pr))}
+                return {Src("const", c["d"], c["ty"], (norm(c["uneval"]), pr))}
             return {Src("const", c["d"], c["ty"])}
         return set()
 
@@ -260,7 +267,10 @@ class Prov:
         if key in self.memo:
             return self.memo[key]
         if key in stack:
+            self._cuts += 1
             return set()
+        cuts0 = self._cuts
+        top = not stack
         stack = stack | {key}
         res = set()
         if 1 <= l <= self.b.arg_count:
@@ -281,6 +291,10 @@ class Prov:
                 s = x
                 wpath = place_fields(s["p"])
             rv = s["rv"]
+            # a write *through* a pointer-typed local (`(*p).f = v`) changes the pointee, not the pointer:
+            # a read of the pointer itself (empty path) does not see it
+            if kind == "S" and wpath and not path and s["p"]["proj"] and s["p"]["proj"][0]["k"] == "deref":
+                continue
             # does a write to `wpath` affect a read of `path`?
             rest = path
             if wpath:
@@ -289,7 +303,9 @@ class Prov:
                     continue
                 rest = path[len(wpath):] if len(path) >= len(wpath) else ()
             res |= self._rv(rv, rest, stack, bi, si)
-        self.memo[key] = res
+        # a result computed while a cycle was cut below it is only complete at the top of the recursion
+        if top or self._cuts == cuts0:
+            self.memo[key] = res
         return res
 
     def _rv(self, rv, path, stack, bi, si):
@@ -810,6 +826,42 @@ class Program:
                 else:
                     ext.setdefault(nm, c)
         return list(seen.values()), ext, indirect
+
+
+def direct_place(body, op, depth=12):
+    """Follow single-definition copy/move/cast/reborrow chains from an operand to the first place that has
+    field projections (or to a call/other definition). Returns ("place", base_local, fields) |
+    ("call", Call) | ("const", operand) | None."""
+    cur = op
+    for _ in range(depth):
+        if cur["k"] == "const":
+            return ("const", cur)
+        if cur["k"] not in ("copy", "move"):
+            return None
+        p = cur["p"]
+        fs = place_fields(p)
+        if fs:
+            return ("place", p["l"], fs)
+        l = p["l"]
+        if 1 <= l <= body.arg_count:
+            return ("place", l, ())
+        defs = body.prov.defs.get(l, [])
+        if len(defs) != 1:
+            return None
+        d = defs[0]
+        if d[0] == "C":
+            return ("call", body.call_at(d[1]))
+        if d[0] != "S":
+            return None
+        rv = d[3]["rv"]
+        if rv["k"] in ("use", "cast"):
+            cur = rv["o"]
+            continue
+        if rv["k"] in ("ref", "rawptr"):
+            cur = {"k": "copy", "p": rv["p"]}
+            continue
+        return ("rvalue", rv, d[1], d[2])
+    return None
 
 
 def const_int(op):
